@@ -5,14 +5,15 @@ package props
 import (
 	"context"
 	"fmt"
+	v2types "github.com/aws/aws-sdk-go-v2/service/dynamodb/types"
 	"reflect"
 	"sort"
 	"strings"
 
-	"github.com/aws/aws-sdk-go/aws"
-	v1ddb "github.com/aws/aws-sdk-go/service/dynamodb"
 	v2aws "github.com/aws/aws-sdk-go-v2/aws"
 	v2ddb "github.com/aws/aws-sdk-go-v2/service/dynamodb"
+	"github.com/aws/aws-sdk-go/aws"
+	v1ddb "github.com/aws/aws-sdk-go/service/dynamodb"
 	v1client "github.com/truora/minidyn/aws-v1/client"
 	v2client "github.com/truora/minidyn/aws-v2/client"
 
@@ -67,6 +68,45 @@ func deepString(v reflect.Value, depth int) string {
 	return fmt.Sprintf("%v", v.Interface())
 }
 
+// unorderedString is deepString with the elements of every slice sorted: equal iff nothing reachable was changed,
+// whatever order the library lists things in. Unexported fields (the SDK v2 document types carry some) are skipped.
+func unorderedString(v reflect.Value, depth int) string {
+	if !v.IsValid() || depth > 14 {
+		return "<>"
+	}
+	switch v.Kind() {
+	case reflect.Ptr, reflect.Interface:
+		if v.IsNil() {
+			return "nil"
+		}
+		return "&" + unorderedString(v.Elem(), depth+1)
+	case reflect.Struct:
+		parts := []string{}
+		for i := 0; i < v.NumField(); i++ {
+			if v.Type().Field(i).PkgPath != "" {
+				continue
+			}
+			parts = append(parts, v.Type().Field(i).Name+":"+unorderedString(v.Field(i), depth+1))
+		}
+		return "{" + strings.Join(parts, ",") + "}"
+	case reflect.Map:
+		parts := []string{}
+		for _, k := range v.MapKeys() {
+			parts = append(parts, fmt.Sprint(k.Interface())+"=>"+unorderedString(v.MapIndex(k), depth+1))
+		}
+		sort.Strings(parts)
+		return "map[" + strings.Join(parts, ",") + "]"
+	case reflect.Slice, reflect.Array:
+		parts := []string{}
+		for i := 0; i < v.Len(); i++ {
+			parts = append(parts, unorderedString(v.Index(i), depth+1))
+		}
+		sort.Strings(parts)
+		return "[" + strings.Join(parts, ",") + "]"
+	}
+	return fmt.Sprintf("%v", v.Interface())
+}
+
 // inputsUntouched: the request structures belong to the caller. Whatever a call does with a request - also one
 // that leaves optional fields unset, and one that is refused - the structure is, field for field and pointer for
 // pointer, what it was before the call (a caller may share one request between goroutines, or send it again).
@@ -114,8 +154,15 @@ func (p *c14) inputsUntouched(x *res, adapter string) {
 		de := &v2ddb.DeleteItemInput{TableName: v2aws.String(spec.Name), Key: adapt.ItemToV2(val.Item{"h": val.Str("k"), "r": val.Str("9")})}
 		ct := adapt.V2CreateInput(&adapt.TableSpec{Name: "tbl14j", Hash: "h", Billing: "PAY_PER_REQUEST", Indexes: []adapt.IndexSpec{{Name: "gsi1", Hash: "g"}}})
 		dt := &v2ddb.DescribeTableInput{TableName: v2aws.String(spec.Name)}
+		bw := &v2ddb.BatchWriteItemInput{RequestItems: map[string][]v2types.WriteRequest{spec.Name: {{PutRequest: &v2types.PutRequest{Item: adapt.ItemToV2(val.Item{"h": val.Str("k"), "r": val.Str("3")})}},
+			{DeleteRequest: &v2types.DeleteRequest{Key: adapt.ItemToV2(val.Item{"h": val.Str("k"), "r": val.Str("8")})}}}}}
+		// a batch read whose key list holds stored keys around one that is not stored (and one that is malformed):
+		// the list is the caller's, also afterwards - the request can be sent again as it is
+		bg := &v2ddb.BatchGetItemInput{RequestItems: map[string]v2types.KeysAndAttributes{spec.Name: {ConsistentRead: v2aws.Bool(true), ProjectionExpression: v2aws.String("#h, r"), ExpressionAttributeNames: map[string]string{"#h": "h"},
+			Keys: []map[string]v2types.AttributeValue{adapt.ItemToV2(key), adapt.ItemToV2(val.Item{"h": val.Str("k"), "r": val.Str("not stored")}), adapt.ItemToV2(val.Item{"h": val.Str("k"), "r": val.Str("2")}), adapt.ItemToV2(val.Item{"h": val.Str("k")}), adapt.ItemToV2(val.Item{"h": val.Str("k"), "r": val.Str("3")})}}}}
 		calls = []call{{"Query", q, func() { c.Query(ctx, q) }}, {"Query(descending, Limit)", qf, func() { c.Query(ctx, qf) }}, {"Query(refused)", qbad, func() { c.Query(ctx, qbad) }}, {"Scan", sc, func() { c.Scan(ctx, sc) }},
 			{"GetItem", g, func() { c.GetItem(ctx, g) }}, {"PutItem", pu, func() { c.PutItem(ctx, pu) }}, {"UpdateItem", up, func() { c.UpdateItem(ctx, up) }}, {"DeleteItem", de, func() { c.DeleteItem(ctx, de) }},
+			{"BatchWriteItem", bw, func() { c.BatchWriteItem(ctx, bw) }}, {"BatchGetItem", bg, func() { c.BatchGetItem(ctx, bg) }}, {"BatchGetItem(again)", bg, func() { c.BatchGetItem(ctx, bg) }},
 			{"CreateTable", ct, func() { c.CreateTable(ctx, ct) }}, {"DescribeTable", dt, func() { c.DescribeTable(ctx, dt) }}}
 	}
 	for _, cc := range calls {
